@@ -81,13 +81,13 @@ type Conn struct {
 	// OnGate is called (without the lock) at gates: "write:before:<i>", "write:after:<i>", item gates.
 	OnGate func(gate string)
 
-	released map[string]bool
-	written  int64
-	nWrites  int
-	clock    atomic.Int64
-	events   []Event
+	released       map[string]bool
+	written        int64
+	nWrites        int
+	clock          atomic.Int64
+	events         []Event
 	blockedReaders int
-	ID       int
+	ID             int
 
 	// ReadCutAfter >= 0: after this many delivered bytes the stream ends (EOF, or reset when ReadCutReset).
 	ReadCutAfter int64
@@ -96,7 +96,7 @@ type Conn struct {
 	// CorruptAt >= 0: XOR the server byte at this stream offset with CorruptMask.
 	CorruptAt   int64
 	CorruptMask byte
-	delivered    int64
+	delivered   int64
 
 	// BlockWritesAfter >= 0: the peer stops reading after this many bytes: Write blocks
 	// (until Close or an armed write deadline expires - virtual: fails at once with a timeout when armed).
